@@ -28,6 +28,7 @@ import (
 	"github.com/renbou/grpcbridge/routing"
 	"github.com/renbou/grpcbridge/webbridge"
 	"google.golang.org/grpc"
+	"google.golang.org/grpc/codes"
 	"google.golang.org/grpc/credentials/insecure"
 	"google.golang.org/grpc/metadata"
 	grpcreflect "google.golang.org/grpc/reflection"
@@ -57,6 +58,10 @@ func (Area) Gen(r *rand.Rand, tier string, emit func(string)) {
 	for _, k := range []int{3, 5} {
 		emit(fmt.Sprintf("race loggers %d", k))
 	}
+	// concurrent gRPC-Web calls that FAIL before the target returned trailers (routing failure, over HTTP and WebSocket),
+	// and concurrent pool.New calls with per-call options on defaults with spare capacity (added for seeded C18-m5 / C18-m6)
+	emit("race grpcwebfail")
+	emit("race poolopts")
 	n := 2
 	if tier == "thorough" {
 		n = 12
@@ -151,6 +156,10 @@ func (Area) Exec(input string) string {
 		grpcWebDeadline(f[2] == "1")
 	case "resolvers":
 		resolvers()
+	case "grpcwebfail":
+		grpcWebFail()
+	case "poolopts":
+		poolOpts()
 	case "loggers":
 		var k int
 		fmt.Sscan(f[2], &k)
@@ -535,6 +544,83 @@ func stragglerHTTP() {
 	close(w.release)
 	<-done
 	time.Sleep(50 * time.Millisecond)
+}
+
+// failRouter fails every lookup, as a router does for a service that was just removed.
+type failRouter struct{}
+
+func (failRouter) RouteGRPC(ctx context.Context) (grpcadapter.ClientConn, routing.GRPCRoute, error) {
+	return nil, routing.GRPCRoute{}, status.Errorf(codes.Unimplemented, "unknown service %s", grpc.ServerTransportStreamFromContext(ctx).Method())
+}
+
+// grpcWebFail: many concurrent gRPC-Web calls (HTTP and WebSocket) that end with a routing failure, i.e. before any
+// target trailers exist: every call builds its own trailer metadata, nothing may be shared between calls.
+func grpcWebFail() {
+	hb := webbridge.NewGRPCWebBridge(failRouter{}, webbridge.GRPCWebBridgeOpts{})
+	srv := httptest.NewServer(webbridge.NewGRPCWebSocketBridge(failRouter{}, webbridge.GRPCWebBridgeOpts{Logger: bridgelog.Discard()}))
+	defer srv.Close()
+	var wg sync.WaitGroup
+	for g := 0; g < 6; g++ {
+		wg.Add(1)
+		go func(g int) {
+			defer wg.Done()
+			for i := 0; i < 40; i++ {
+				path := fmt.Sprintf("/svc%d.S/M%d", g, i)
+				if g%3 != 0 {
+					req := httptest.NewRequest("POST", path, strings.NewReader("\x00\x00\x00\x00\x00"))
+					req.Header.Set("Content-Type", "application/grpc-web+proto")
+					hb.ServeHTTP(httptest.NewRecorder(), req)
+					continue
+				}
+				d := websocket.Dialer{Subprotocols: []string{"grpc-websockets"}}
+				c, _, err := d.Dial("ws"+strings.TrimPrefix(srv.URL, "http")+path, nil)
+				if err != nil {
+					continue
+				}
+				_ = c.WriteMessage(websocket.BinaryMessage, []byte("x-a: 1\r\n"))
+				_ = c.SetReadDeadline(time.Now().Add(2 * time.Second))
+				for {
+					if _, _, err := c.ReadMessage(); err != nil {
+						break
+					}
+				}
+				c.Close()
+			}
+		}(g)
+	}
+	wg.Wait()
+}
+
+// poolOpts: concurrent AdaptedClientPool.New calls with per-call dial options on a pool whose default options slice
+// has spare capacity (three chained options: len 3, cap 4): no call may see another call's options.
+func poolOpts() {
+	lis := bufconn.Listen(1 << 16)
+	srv := grpc.NewServer()
+	go func() { _ = srv.Serve(lis) }()
+	defer srv.Stop()
+	var defaults []grpc.DialOption
+	defaults = append(defaults, grpc.WithTransportCredentials(insecure.NewCredentials()))
+	defaults = append(defaults, grpc.WithUserAgent("a"))
+	defaults = append(defaults, grpc.WithAuthority("b"))
+	pool := grpcadapter.NewAdaptedClientPool(grpcadapter.AdaptedClientPoolOpts{DefaultOpts: defaults,
+		NewClientFunc: func(target string, opts ...grpc.DialOption) (*grpc.ClientConn, error) {
+			return grpc.NewClient("passthrough:///bufnet", opts...)
+		}})
+	var wg sync.WaitGroup
+	for g := 0; g < 4; g++ {
+		wg.Add(1)
+		go func(g int) {
+			defer wg.Done()
+			for i := 0; i < 50; i++ {
+				name := fmt.Sprintf("t%d", g)
+				c, err := pool.New(name, "x", grpc.WithContextDialer(func(ctx context.Context, _ string) (net.Conn, error) { return lis.DialContext(ctx) }))
+				if err == nil {
+					c.Close()
+				}
+			}
+		}(g)
+	}
+	wg.Wait()
 }
 
 // plainLog implements only bridgelog.PlainLogger (no With / WithComponent): bridgelog wraps it and keeps the
